@@ -30,6 +30,7 @@ def run(rep, tier):
     from .. import mapping
     mapping.bound_spellings(rep)
     mapping.repeat_mapping(rep)
+    mapping.bound_atomicity(rep)
     mapping.spelling_pairs(rep)
     from .. import controls
     controls.e1_controls(rep)
